@@ -190,6 +190,8 @@ tagspec(struct scope *s)
 		et = declspecs(s, NULL, NULL, NULL).type;
 		if (!et)
 			error(&tok.loc, "no type in enum type specifier");
+		if (!(et->prop & PROPINT) || et->kind == TYPEENUM && et->incomplete)
+			error(&tok.loc, "enum underlying type must be an integer type");
 	}
 	if (tag)
 		t = scopegettag(s, tag, tok.kind != TLBRACE && tok.kind != TSEMICOLON);
@@ -200,6 +202,10 @@ tagspec(struct scope *s)
 		if (kind == TYPEENUM) {
 			t = mktype(kind, PROPSCALAR|PROPARITH|PROPREAL|PROPINT);
 			t->base = et;
+			/* until the enum is completed, lay it out like its underlying type (or int) */
+			t->size = (et ? et : &typeint)->size;
+			t->align = (et ? et : &typeint)->align;
+			t->u.basic.issigned = (et ? et : &typeint)->u.basic.issigned;
 		} else {
 			t = mktype(kind, 0);
 			t->size = 0;
